@@ -11,6 +11,5 @@ VERIF_REPO=$wt timeout 3000 ./check $id $tier > /tmp/lead-seed-$id.out 2>&1
 rc=$?
 echo "$id seeded: exit=$rc violations=$(grep -c '^VIOLATION' /tmp/lead-seed-$id.out)"
 grep '  key:' /tmp/lead-seed-$id.out | head -4 | cut -c1-220
-git -C /verif clean -fq replays/; git -C /verif checkout -- replays
 git -C /repo worktree remove --force $wt
 # restore evidence to reflect the unchanged tree is the caller's job
